@@ -49,6 +49,14 @@ def make_cfg(concurrent=True):
     cfg.protected = dict(PROTECTED)
     cfg.stable = set(STABLE)
     cfg.concurrent = concurrent
+    def on_opaque(engine, st, fr, ev):
+        # BL (DESIGN 3.6): inside the library, result() / exception() are only called on futures that are known
+        # to be done, so they never block (and never wait on a thread that may need a lock we hold)
+        if ev.kind == "block" and not getattr(cfg, "blocking_allowed", False):
+            engine.oblige(st, fr, "BL: %s() is called only on a future known to be done (never blocks) in %s"
+                          % (ev.meth, fr.func.qualname.split("more_executors._impl.")[-1] if fr.func else "?"), "BL", z3.BoolVal(False),
+                          props=["C04", "C03"])
+    cfg.on_opaque = on_opaque
     cfg.global_types = {
         ("more_executors._impl.metrics", "metrics"): metrics_object,
         ("more_executors._impl.map", "metrics"): metrics_object,
